@@ -75,6 +75,15 @@ Proof.
 Qed.
 Print Assumptions C20_header_roundtrip.
 
+(* header.Decode on ANY buffer: when it does not panic, the byte count it reports never exceeds the
+   buffer and every decoded field is in its Go type's range *)
+Theorem C20_header_decode_bounds : forall buf h n, header_decode buf = Some (h, n) ->
+  (n <= Z.of_nat (length buf))%Z /\ h_klen h < two32 /\ h_vlen h < two32 /\ h_expires h < two64.
+Proof. exact C20Proofs.header_decode_bounds. Qed.
+Print Assumptions C20_header_decode_bounds.
+Example C20_header_decode_bounds_ex : exists h n, header_decode [1; 2; 3; 4; 5] = Some (h, n).
+Proof. eexists. eexists. vm_compute. reflexivity. Qed.
+
 Theorem C20_valuestruct_roundtrip : forall v, vs_expires v < two64 ->
   vs_decode (vs_encode v) = Some v.
 Proof. exact C20Proofs.vs_roundtrip. Qed.
